@@ -127,6 +127,7 @@ Definition rg_scalar_default (vr : variant) (k : kind) (decl : list Z) (v : val)
   | KFloat, VBits n => finite32 n
   | KDouble, VBits n => finite64 n
   | KEnum, VInt z =>
+    in_range_z (-2147483648) 2147483648 z &&                      (* Int32Range / EnumNumber: an int32 *)
     if v_enum_by_number vr then declared decl z
     else ((0 <=? z) && (z <? Z.of_nat (length decl)))%Z          (* the drawn INDEX is used as number *)
   | _, _ => wt_scalar k v
@@ -231,9 +232,13 @@ Section Deep.
     match f_shape f with
     | Singular => elem_deep rec p f fa s
     | Rep _ =>
-      (* elements left behind at the depth limit (r < 2) were never populated: not walked, the
-         range predicate says they are default messages *)
-      match s with VList l => if (2 <=? r)%nat then forallb (elem_deep rec 1 f fa) l else true | _ => true end
+      (* message elements left behind at the depth limit (r < 2) were never populated: not walked,
+         the range predicate says they are default messages *)
+      match s, f_ty f with
+      | VList l, TScalar _ => forallb (elem_deep rec 1 f fa) l
+      | VList l, TMsg _ => if (2 <=? r)%nat then forallb (elem_deep rec 1 f fa) l else true
+      | _, _ => true
+      end
     | Member _ => match s with VSome e => elem_deep rec p f fa e | _ => true end
     | MapOf kk =>
       match s with
@@ -504,7 +509,7 @@ Definition duration_preds : preds :=
 (* every Any names a message type of the schema that the options offer, and its value decodes as it *)
 Definition any_preds (o : gopts) (sch : schema) (ann : annots) : preds :=
   {| p_scalar := true_scalar; p_slot := true_slot;
-     p_msg := fun _ ic ma _ slots _ =>
+     p_msg := fun r ic ma _ slots _ =>
        match a_wkt ma with
        | WAny =>
          match slots with
@@ -512,7 +517,8 @@ Definition any_preds (o : gopts) (sch : schema) (ann : annots) : preds :=
            match resolve ann u with
            | Some tm =>
              (existsb (Nat.eqb tm) (o_any o) || existsb (fun h => match h with Some t => Nat.eqb t tm | None => false end) (o_hints o))
-             && is_ok (pulsar_unmarshal sch false tm VNil (as_bytes vb))
+             && (* the payload of an Any at the nesting limit is beyond it: nothing is generated, the value is empty *)
+                (if (2 <=? r)%nat then is_ok (pulsar_unmarshal sch false tm VNil (as_bytes vb)) else bytes_empty vb)
            | None => false
            end
          | _ => false
@@ -580,6 +586,11 @@ Definition no_nil_elem_preds : preds :=
 Definition mapper_preds (o : gopts) : preds :=
   {| p_scalar := fun k decl v => match o_fmap o k decl with FmAlways p _ => p v | _ => true end;
      p_slot := true_slot; p_msg := true_msg |}.
+
+(* what the FieldMappers of the options answer satisfies R (a hypothesis of the theorems whose
+   property a mapper could break: a mapper may return any protoreflect.Value) *)
+Definition fmap_sound (o : gopts) (R : kind -> list Z -> val -> bool) : Prop :=
+  forall k decl p g v, (o_fmap o k decl = FmAlways p g \/ o_fmap o k decl = FmMaybe p g) -> p v = true -> R k decl v = true.
 
 (* the field mappers the runner uses (harness/cmd/runner/rapideng.go fieldMapper) *)
 Definition mapped_strings : list (list byte) :=
